@@ -385,8 +385,10 @@ class DataProviderLinked(DataProvider):
         diff = target_axis - index
 
         if method == "forward":
+            target_axis = target_axis[diff >= 0]
             diff = diff[diff >= 0]
         elif method == "backward":
+            target_axis = target_axis[diff <= 0]
             diff = diff[diff <= 0]
 
         diff = np.abs(diff)
